@@ -159,6 +159,8 @@ MUTANTS = [
     ("C20", "always-download", "typhon/topography.py", "        if not (os.path.exists(dem_file)):\n            SRTM30.download_tile(name)", "        if True:\n            SRTM30.download_tile(name)"),
     ("C20", "lon-180-wrap", "typhon/topography.py", "        if lon_min >= 180:\n            lon_min -= 360", "        if lon_min > 180:\n            lon_min -= 360"),
     ("C20", "jmax-aligned", "typhon/topography.py", "        if not j_max < j:\n            j_max = j_max - 1", "        if not j_max < j:\n            j_max = j_max"),
+    ("C05", "search-stops-after-first-file", "typhon/collocations/common.py", "        for _ in collocated_files:\n            pass", "        for _ in collocated_files:\n            break"),
+    ("C05", "search-drops-bundle", "typhon/collocations/common.py", "            filesets, output=self, **kwargs\n", "            filesets, output=self, **{k: v for k, v in kwargs.items() if k != 'max_interval'}, max_interval=kwargs.get('max_interval') and '1s'\n"),
     ("C05", "final-flush-dropped", "typhon/collocations/collocator.py", "            # After all iterations, save last cached data to disk:\n            if cached_data:", "            # After all iterations, save last cached data to disk:\n            if False:"),
     ("C05", "no-drain-after-death", "typhon/collocations/collocator.py", "            running = [\n                process for process in running if process.is_alive()\n            ]\n", "            running = [\n                process for process in running if process.is_alive()\n            ]\n            if not running:\n                break\n"),
     ("C05", "max-interval-not-forwarded", "typhon/collocations/collocator.py", "            filesets[1], start=start, end=end, max_interval=max_interval,\n        ))", "            filesets[1], start=start, end=end, max_interval=None,\n        ))"),
